@@ -280,7 +280,7 @@ impl<const N: usize> Subscriptions<N> {
     /// Verification hook: `(subscription id, fabric index, peer node id, min interval)` of every
     /// subscription in the table (including the one being reported on, if any).
     #[cfg(rs_matter_verif)]
-    pub fn verif_snapshot(&self) -> std::vec::Vec<(u32, u8, u64, u16)> {
+    pub fn verif_fabric_view(&self) -> std::vec::Vec<(u32, u8, u64, u16)> {
         self.state.lock(|state| {
             let state = state.borrow();
 
